@@ -221,6 +221,10 @@ def case_model_queries_stub(inp):
     m.spike_templates = np.array(st, dtype=inp['st_dtype'])
     m.n_templates = nt
     m.n_spikes = len(sc)
+    # the other id tables the loader derives from the two vectors (so that a query reading them gets what a loaded model would have)
+    m.template_ids = np.unique(m.spike_templates)
+    m.cluster_ids = np.unique(m.spike_clusters)
+    m.n_clusters = max(int(m.spike_clusters.max()) + 1, nt) if len(sc) else nt
     yield from _check_model(m, sc, st, nt, inp['cluster_queries'], inp['template_queries'])
 
 
@@ -428,6 +432,8 @@ def enumerate_cases(ctx):
         r = np.random.RandomState(ctx.seed * 1000 + j)
         st = r.randint(0, nt, size=ns)
         st[:nt] = np.arange(nt)
+        if j % 2:
+            st[st == (j // 2) % nt] = (j // 2 + 1) % nt      # every other dataset: one template id (any position, also the highest) without spikes
         mode = j % 3
         ds = dict(seed=j, n_spikes=ns, n_templates=nt, spike_templates=[int(x) for x in st],
                   ids_dtype=('uint32', 'int32', 'int64', 'uint16')[j % 4], names=('ks', 'alf')[(j // 3) % 2])
